@@ -294,7 +294,11 @@ def c07_own(ctx):
     nmeth = 0
     for f_ in F.crate_fns():
         root_ = f_.root or f_.name
-        if not root_.startswith('desync::Scheduler::'):
+        # the scheduler's own machinery (the scheduler, its core, its queues, wakers, futures, jobs and threads); the free functions, the
+        # Desync<T> wrappers and the pipes are the layers that are *defined* on the process-wide scheduler
+        stripped_ = root_[1:] if root_.startswith('<') else root_
+        if not any(stripped_.startswith('desync::' + x) for x in ('Scheduler::', 'Scheduler ', 'SchedulerCore', 'SchedulerFuture', 'SchedulerThread', 'SyncFuture', 'JobQueue', 'WakeQueue', 'WakeThread',
+                                                                  'DrainWaker', 'DoubleWaker', 'ActiveQueue', 'FutureJob', 'UnsafeJob', 'Job::', 'Job ', 'QueueResumer', 'SchedulerFutureSignaller')):
             continue
         nmeth += 1
         for bb_, t_ in f_.calls():
@@ -302,11 +306,11 @@ def c07_own(ctx):
             if callee_ in FREE or callee_.startswith('<desync::SCHEDULER') or callee_.startswith('desync::SCHEDULER'):
                 leaks.append((f_, callee_))
     if leaks:
-        out.append(bad('ORD-C07-own', 'Scheduler|uses-its-own-core', '%s calls %s: the work is queued on (and woken through) the process-wide scheduler instead of this one, so a private scheduler\'s threads never run it' % (short(leaks[0][0].name), short(leaks[0][1])), fn=leaks[0][0].name))
+        out.append(bad('ORD-C07-own', 'Scheduler|uses-its-own-core', '%s calls %s: the work is queued on (or woken through, or rescheduled on) the process-wide scheduler instead of the one this object belongs to, so a private scheduler\'s threads never run it' % (short(leaks[0][0].name), short(leaks[0][1])), fn=leaks[0][0].name))
     elif nmeth < 10:
         out.append(undecided('ORD-C07-own', 'Scheduler|uses-its-own-core', 'only %d bodies of Scheduler methods found' % nmeth))
     else:
-        out.append(ok('ORD-C07-own', 'Scheduler|uses-its-own-core', 'no method of Scheduler goes through the process-wide scheduler (%d bodies)' % nmeth))
+        out.append(ok('ORD-C07-own', 'Scheduler|uses-its-own-core', 'nothing in the scheduler\'s own machinery (scheduler, core, queues, wakers, futures, jobs, threads) goes through the process-wide scheduler (%d bodies)' % nmeth))
     # while an operation is suspended (queue parked) the scheduler holds no reference to the queue: the wakers handed to the operation's
     # future are what keeps the queue, the suspended job and everything behind it alive once the caller has dropped its handles
     for wk in ('desync::WakeQueue', 'desync::WakeThread'):
@@ -2165,6 +2169,12 @@ def c06_drain(ctx):
             for wb, t in ww:
                 if len(t['args']) < 2:
                     problems.append('wake_with (%s) receives no waker' % dq.loc(wb))
+                    continue
+                from .ordq import slice_alternatives
+                alts = slice_alternatives(dq, t['args'][1])
+                if len(alts) > 1 and any('desync::WakeQueue' not in a_ for a_, c_ in alts):
+                    problems.append('the waker installed at %s is, on one of the ways it is produced, not built in this poll from a WakeQueue (a waker kept from an earlier poll: DoubleWaker and DrainWaker fire once, '
+                                    'a re-used one has already been spent, so the next wake-up reaches neither the queue nor the task)' % dq.loc(wb))
                     continue
                 adts, cals = backward_slice(dq, t['args'][1])
                 if 'desync::WakeQueue' not in adts:
